@@ -463,8 +463,11 @@ def emit_layout(em, sh, chunk):
 
 
 def absent_types(sh, rng, n):
-    present = {e["type"] for e in sh.listing}
-    cands = [P(p) for p in PRIMS] + [named(i) for i in POOL] + [("ptr", t) for t in list(present)[:4]] + \
+    present = []
+    for e in sh.listing:
+        if e["type"] not in present:
+            present.append(e["type"])
+    cands = [P(p) for p in PRIMS] + [named(i) for i in POOL] + [("ptr", t) for t in present[:4]] + \
             [("slice", P("int8")), ("array", 3, P("uint8")), ("array", 4, P("uint8")), sh.type, ("ptr", sh.type), OTHER]
     cands = [c for c in cands if c not in present]
     rng.shuffle(cands)
@@ -788,7 +791,10 @@ def run_batches(ctx, oracle, want, sizes, ptr_embed=True, seed_tag=0):
         import vlib
         with (contextlib.nullcontext() if has_suffix else serial):
             kw = {"suffix": "-%s-%d" % (oracle, b.idx)} if has_suffix else {}
+            import time
+            t0 = time.time()
             binp, err = ctx.harness("layout", replaces(), extra_files={"shapes_gen.go": b.src}, **kw)
+            b.build_s = time.time() - t0
             if binp is None:
                 b.error = "harness does not build: " + (err or "")[-3000:]
                 return b
@@ -814,6 +820,9 @@ def run_batches(ctx, oracle, want, sizes, ptr_embed=True, seed_tag=0):
     for b in batches:
         if b.error:
             ctx.broken.append({"kind": "correspondence", "detail": "batch %d: %s" % (b.idx, b.error)})
+    ctx.note("%d batches, %d shapes, %d requests; go build %.1fs max per batch (%d KB generated source)" % (
+        len(batches), sum(len(b.shapes) for b in batches), sum(len(b.requests) for b in batches),
+        max([getattr(b, "build_s", 0) for b in batches] + [0]), sum(len(b.src) for b in batches) // 1024))
     return batches
 
 
